@@ -48,7 +48,7 @@ func coqCase(e *Exec, in *Input, obs []Obs) string {
 	curASTs = e.asts
 	var sb strings.Builder
 	if in.Opts != nil {
-		fmt.Fprintf(&sb, "CSchedF %v %v [", in.Opts.SkipSortDocs, in.Opts.KeepMetaFile)
+		fmt.Fprintf(&sb, "CSchedP %v %v [", in.Opts.SkipSortDocs, in.Opts.KeepMetaFile)
 	} else {
 		sb.WriteString("CSched [")
 	}
@@ -162,6 +162,42 @@ func coqCase(e *Exec, in *Input, obs []Obs) string {
 			sb.WriteString("[" + strings.Join(p, "; ") + "]")
 		}
 		sb.WriteString("]")
+		// wr: per fraction its block offsets as first seen (at seal.swapped); ps: per label, per fraction, as they are
+		nfr := 0
+		for _, o := range obs {
+			if len(o.Offs) > nfr {
+				nfr = len(o.Offs)
+			}
+		}
+		u64s := func(l []uint64) string {
+			p := make([]string, len(l))
+			for i, x := range l {
+				p[i] = fmt.Sprint(x)
+			}
+			return "[" + strings.Join(p, "; ") + "]"
+		}
+		wr := make([]string, nfr)
+		for g := range wr {
+			wr[g] = "[]"
+			for _, o := range obs {
+				if g < len(o.Offs) && len(o.Offs[g]) > 0 {
+					wr[g] = u64s(o.Offs[g])
+					break
+				}
+			}
+		}
+		sb.WriteString(" [" + strings.Join(wr, "; ") + "] [")
+		for i, o := range obs {
+			if i > 0 {
+				sb.WriteString("; ")
+			}
+			p := make([]string, len(o.Offs))
+			for g := range o.Offs {
+				p[g] = u64s(o.Offs[g])
+			}
+			sb.WriteString("[" + strings.Join(p, "; ") + "]")
+		}
+		sb.WriteString("]")
 	}
 	return sb.String()
 }
@@ -208,6 +244,16 @@ func classify(in *Input, obs []Obs) (string, bool, []string) {
 	if in.Opts != nil {
 		counts = append(counts, fmt.Sprintf("opts:skip-sort-docs=%v,keep-meta-file=%v", in.Opts.SkipSortDocs, in.Opts.KeepMetaFile))
 		counts = append(counts, handoverCounts(in, obs)...)
+		counts = append(counts, fmt.Sprintf("doc-block-size:%d", in.Opts.DocBlockSize))
+		if n := len(obs); n > 0 {
+			multi := 0
+			for _, t := range obs[n-1].Offs {
+				if len(t) > 1 {
+					multi++
+				}
+			}
+			counts = append(counts, fmt.Sprintf("sealed-fractions-with-several-blocks:%d", multi))
+		}
 	}
 	if overlap {
 		counts = append(counts, "reader-overlaps-index-step")
@@ -445,6 +491,9 @@ func runGenerated(r *rng.R, idx int) *Result {
 	// every random schedule carries the fraction options and the file observations; half of them run with the
 	// non-default SkipSortDocs (sealed fraction keeps reading through the active fraction's descriptor)
 	in.Opts = &Opts{SkipSortDocs: r.Chance(1, 2), KeepMetaFile: r.Chance(1, 3)}
+	if r.Chance(3, 4) { // several blocks of sorted docs per sealed fraction (every document its own block)
+		in.Opts.DocBlockSize = 64
+	}
 	e, err := NewExec(in)
 	if err != nil {
 		panic(err)
@@ -469,7 +518,7 @@ func runGenerated(r *rng.R, idx int) *Result {
 		}
 	}
 	ticks := r.Range(30, 110)
-	maxRot, maxSui := r.Range(0, 2), r.Intn(2)
+	maxRot, maxSui := r.Range(0, 3), r.Intn(2)
 	rots, suis := 0, 0
 	readersOn := r.Range(1, nReaders)
 	for t := 0; t < ticks && !e.hang; t++ {
@@ -631,6 +680,27 @@ func runGenerated(r *rng.R, idx int) *Result {
 		// hand-over gadget: right after the swap / the release / the list replacement of fraction g a reader takes a
 		// fresh list, searches the fraction (now served by the sealed provider) and fetches every ID it got, and a
 		// reader that still holds an OLDER list (the proxy entry) fetches IDs returned earlier
+		// after the seal of fraction g has BUILT its sealed fraction (seal.built or later): every OLDER sealed fraction
+		// must still answer - a fetch of all IDs (every block) through a fresh list
+		if last := obs[len(obs)-1]; pick.K == "M" && ((last.K == "hook" && last.H >= 32) || last.K == "done") && !e.hang {
+			ri := r.Intn(readersOn)
+			if rd := e.rs[ri]; !rd.inop {
+				swept := false
+				do(Label{K: "Snap", T: ri})
+				for j, sg := range rd.snapG {
+					if sg != pick.T && sg < len(e.sealeds) && e.sealeds[sg] != nil && !e.hang {
+						do(Label{K: "FB", T: ri, J: j, IDs: dedupIDs(allIDs)})
+						for rd.inop && !e.hang {
+							do(Label{K: "R", T: ri})
+						}
+						swept = true
+					}
+				}
+				if swept {
+					e.counts = append(e.counts, "gadget:fetch-older-sealed-after-seal")
+				}
+			}
+		}
 		if last := obs[len(obs)-1]; pick.K == "M" && ((last.K == "hook" && last.H >= 33) || last.K == "done") && r.Chance(2, 3) && !e.hang {
 			g := pick.T
 			ri := r.Intn(readersOn)
